@@ -21,7 +21,7 @@ Reference semantics (C05): `Text.view t : List (Char × List σ)` — every char
 apply to it, base style first, then the covering spans in span order ("later spans win" is the order of that
 list).  `nsv v` is the sub-list of the non-whitespace characters (Python's `str.isspace` class, generated).
 
-Variants.  `WVariant.repaired` = the code in /repo today: rich 9.10.0 with the two repairs this machinery asked for
+Variants.  `(WVariant.fixed chars)` = the code in /repo today: rich 9.10.0 with the two repairs this machinery asked for
 (`fix:` commits aad03fe "Text.divide keeps the order of equal spans" — found by C05, reproduced through `wrap` here —
 and 90b2e96 "Lines.justify does not pad by a negative amount" — found by C02, `pending_fixes/C02-justify-negative-pad.diff`);
 `WVariant.released` = rich 9.10.0 as released.  The `old_…` theorems exhibit, by evaluation, a concrete input on which
@@ -46,6 +46,7 @@ namespace RichModel.C02
 open RichModel RichModel.Text RichModel.Wrap
 
 variable {σ : Type}
+variable {chars : Bool}
 
 /-! ## `divide_line` -/
 
@@ -118,7 +119,7 @@ theorem old_wrap_reorders_styles :
   constructor <;> rfl
 
 example :
-    (wrap WVariant.repaired (fun _ => 1) (⟨0, List.sum, (· == ·)⟩ : StyleAlg Nat)
+    (wrap (WVariant.fixed chars) (fun _ => 1) (⟨0, List.sum, (· == ·)⟩ : StyleAlg Nat)
         (Text.new Variant.repaired ['a', ' ', 'b'] 0 [⟨0, 3, 1⟩, ⟨2, 3, 2⟩, ⟨2, 3, 1⟩]) 2).map (fun ls => ls.map Text.view)
       = .ok [[('a', [0, 1]), (' ', [0, 1])], [('b', [0, 1, 2, 1])]] := by rfl
 
@@ -129,7 +130,7 @@ example :
 exactly those of the paragraph — nothing dropped, duplicated, reordered or restyled. -/
 theorem wrapLine_fold_keeps [BEq σ] (cw : Char → Nat) (hsp : cw ' ' = 1) (h2 : ∀ c, cw c ≤ 2) (A : StyleAlg σ) (w : Nat)
     (hw : 2 ≤ w) (j : Justify) (hj : j ≠ Justify.full) (P : Text σ) (hP : Inv P) :
-    ∃ out, wrapLine WVariant.repaired cw A P w j Overflow.fold false = .ok out ∧
+    ∃ out, wrapLine (WVariant.fixed chars) cw A P w j Overflow.fold false = .ok out ∧
       nsv (out.flatMap Text.view) = nsv P.view ∧ ∀ l ∈ out, Inv l := by
   have hwc : ∀ c, cw c ≤ w := fun c => Nat.le_trans (h2 c) hw
   obtain ⟨hpw, hin⟩ := Wrap.divideLine_offsets cw P.plain w true hwc
@@ -144,7 +145,7 @@ theorem wrapLine_fold_keeps [BEq σ] (cw : Char → Nat) (hsp : cw ' ' = 1) (h2 
 /-- the characters alone -/
 theorem wrapLine_fold_keeps_chars [BEq σ] (cw : Char → Nat) (hsp : cw ' ' = 1) (h2 : ∀ c, cw c ≤ 2) (A : StyleAlg σ)
     (w : Nat) (hw : 2 ≤ w) (j : Justify) (hj : j ≠ Justify.full) (P : Text σ) (hP : Inv P) :
-    ∃ out, wrapLine WVariant.repaired cw A P w j Overflow.fold false = .ok out ∧
+    ∃ out, wrapLine (WVariant.fixed chars) cw A P w j Overflow.fold false = .ok out ∧
       (out.flatMap (·.plain)).filter (fun c => !pyIsSpace c) = P.plain.filter (fun c => !pyIsSpace c) := by
   obtain ⟨out, h1, h3, _⟩ := wrapLine_fold_keeps cw hsp h2 A w hw j hj P hP
   refine ⟨out, h1, ?_⟩
@@ -164,7 +165,7 @@ blanks spread out; the non-whitespace characters of the produced lines and their
 paragraph (up to the null style `""` that `Text("").join` puts in front). -/
 theorem wrapLine_fold_keeps_full [BEq σ] [LawfulBEq σ] (cw : Char → Nat) (hsp : cw ' ' = 1) (h2 : ∀ c, cw c ≤ 2)
     (A : StyleAlg σ) (w : Nat) (hw : 2 ≤ w) (P : Text σ) (hP : Inv P) :
-    ∃ out, wrapLine WVariant.repaired cw A P w Justify.full Overflow.fold false = .ok out ∧
+    ∃ out, wrapLine (WVariant.fixed chars) cw A P w Justify.full Overflow.fold false = .ok out ∧
       dropNull A (nsv (out.flatMap Text.view)) = dropNull A (nsv P.view) ∧ ∀ l ∈ out, Inv l := by
   have hwc : ∀ c, cw c ≤ w := fun c => Nat.le_trans (h2 c) hw
   obtain ⟨hpw, hin⟩ := Wrap.divideLine_offsets cw P.plain w true hwc
@@ -180,10 +181,10 @@ characters of the produced lines, concatenated, are exactly those of the paragra
 reordered — and each carries the effective style it had (compared modulo the null style, see the header). -/
 theorem wrapLine_fold_keeps_every_justify [BEq σ] [LawfulBEq σ] (cw : Char → Nat) (hsp : cw ' ' = 1) (h2 : ∀ c, cw c ≤ 2)
     (A : StyleAlg σ) (w : Nat) (hw : 2 ≤ w) (j : Justify) (P : Text σ) (hP : Inv P) :
-    ∃ out, wrapLine WVariant.repaired cw A P w j Overflow.fold false = .ok out ∧
+    ∃ out, wrapLine (WVariant.fixed chars) cw A P w j Overflow.fold false = .ok out ∧
       dropNull A (nsv (out.flatMap Text.view)) = dropNull A (nsv P.view) ∧ (∀ l ∈ out, Inv l) ∧
       (out.flatMap (·.plain)).filter (fun c => !pyIsSpace c) = P.plain.filter (fun c => !pyIsSpace c) := by
-  have hmain : ∃ out, wrapLine WVariant.repaired cw A P w j Overflow.fold false = .ok out ∧
+  have hmain : ∃ out, wrapLine (WVariant.fixed chars) cw A P w j Overflow.fold false = .ok out ∧
       dropNull A (nsv (out.flatMap Text.view)) = dropNull A (nsv P.view) ∧ (∀ l ∈ out, Inv l) := by
     by_cases hj : j = Justify.full
     · subst hj; exact wrapLine_fold_keeps_full cw hsp h2 A w hw P hP
@@ -215,10 +216,10 @@ theorem wrap_fold_keeps_nonspace [BEq σ] [LawfulBEq σ] (cw : Char → Nat) (hs
     (A : StyleAlg σ) (t : Text σ) (ht : Inv t) (w : Nat) (hw : 2 ≤ w) (justify : Option Justify)
     (overflow : Option Overflow) (ts : Nat) (hts : 0 < ts) (noWrap : Option Bool)
     (hov : wrapOverflowOf t overflow = Overflow.fold) (hnw : noWrapOf t overflow noWrap = false) :
-    ∃ out, wrap WVariant.repaired cw A t w justify overflow (some ts) noWrap = .ok out ∧
+    ∃ out, wrap (WVariant.fixed chars) cw A t w justify overflow (some ts) noWrap = .ok out ∧
       normView A (nsv (out.flatMap Text.view)) = normView A (nsv t.view) ∧
       (out.flatMap (·.plain)).filter (fun c => !pyIsSpace c) = t.plain.filter (fun c => !pyIsSpace c) := by
-  have hmain : ∃ out, wrap WVariant.repaired cw A t w justify overflow (some ts) noWrap = .ok out ∧
+  have hmain : ∃ out, wrap (WVariant.fixed chars) cw A t w justify overflow (some ts) noWrap = .ok out ∧
       normView A (nsv (out.flatMap Text.view)) = normView A (nsv t.view) := by
     apply wrap_over_paragraphs cw A t ht w justify overflow (some ts) noWrap (normView A) (normView_append A)
     intro P hP _
@@ -250,7 +251,7 @@ theorem wrap_fold_keeps_nonspace_notabs [BEq σ] [LawfulBEq σ] (cw : Char → N
     (overflow : Option Overflow) (tabSize : Option Nat) (noWrap : Option Bool)
     (hov : wrapOverflowOf t overflow = Overflow.fold) (hnw : noWrapOf t overflow noWrap = false)
     (htab : '\t' ∉ t.plain) :
-    ∃ out, wrap WVariant.repaired cw A t w justify overflow tabSize noWrap = .ok out ∧
+    ∃ out, wrap (WVariant.fixed chars) cw A t w justify overflow tabSize noWrap = .ok out ∧
       dropNull A (nsv (out.flatMap Text.view)) = dropNull A (nsv t.view) := by
   apply wrap_over_paragraphs cw A t ht w justify overflow tabSize noWrap (dropNull A) (dropNull_append A)
   intro P hP hPc
@@ -264,7 +265,7 @@ theorem wrap_fold_keeps_styles_exact [BEq σ] (cw : Char → Nat) (hsp : cw ' ' 
     (overflow : Option Overflow) (tabSize : Option Nat) (noWrap : Option Bool)
     (hov : wrapOverflowOf t overflow = Overflow.fold) (hnw : noWrapOf t overflow noWrap = false)
     (hj : wrapJustifyOf t justify ≠ Justify.full) (htab : '\t' ∉ t.plain) :
-    ∃ out, wrap WVariant.repaired cw A t w justify overflow tabSize noWrap = .ok out ∧
+    ∃ out, wrap (WVariant.fixed chars) cw A t w justify overflow tabSize noWrap = .ok out ∧
       nsv (out.flatMap Text.view) = nsv t.view := by
   apply wrap_over_paragraphs cw A t ht w justify overflow tabSize noWrap id (fun _ _ => rfl)
   intro P hP hPc
@@ -282,14 +283,14 @@ else, none changes its style, and their order is the paragraph's. -/
 theorem wrapLine_style_preserved [BEq σ] (cw : Char → Nat) (hsp : cw ' ' = 1) (h2 : ∀ c, cw c ≤ 2) (A : StyleAlg σ) (w : Nat)
     (hw : 2 ≤ w) (j : Justify) (hj : j ≠ Justify.full) (o : Overflow) (nw : Bool) (P : Text σ) (hP : Inv P) :
     ∃ lines : List (Text σ), (lines.map Text.view).flatten = P.view ∧
-      wrapLine WVariant.repaired cw A P w j o nw = .ok (lines.map (finishLine WVariant.repaired cw w j o)) ∧
-      ∀ l ∈ lines, Kept l (finishLine WVariant.repaired cw w j o l) := by
+      wrapLine (WVariant.fixed chars) cw A P w j o nw = .ok (lines.map (finishLine (WVariant.fixed chars) cw w j o)) ∧
+      ∀ l ∈ lines, Kept l (finishLine (WVariant.fixed chars) cw w j o l) := by
   have hwc : ∀ c, cw c ≤ w := fun c => Nat.le_trans (h2 c) hw
   have finish : ∀ lines : List (Text σ), (∀ l ∈ lines, Inv l) →
-      (justifyLines WVariant.repaired cw A (lines.map (fun l => l.rstripEnd WVariant.repaired.text w)) w j o >>= fun justified =>
+      (justifyLines (WVariant.fixed chars) cw A (lines.map (fun l => Text.rstripEndW chars cw (WVariant.fixed chars).text l w)) w j o >>= fun justified =>
         (.ok (justified.map (fun l => l.truncate cw w (some o))) : Except PyErr (List (Text σ))))
-        = .ok (lines.map (finishLine WVariant.repaired cw w j o)) ∧
-      ∀ l ∈ lines, Kept l (finishLine WVariant.repaired cw w j o l) := by
+        = .ok (lines.map (finishLine (WVariant.fixed chars) cw w j o)) ∧
+      ∀ l ∈ lines, Kept l (finishLine (WVariant.fixed chars) cw w j o l) := by
     intro lines hinv
     refine ⟨?_, fun l hl => finishLine_kept cw hsp h2 w (by omega) j o l (hinv l hl)⟩
     rw [justifyLines_map _ _ _ _ _ _ _ hj]
@@ -312,7 +313,7 @@ theorem wrapLine_style_preserved [BEq σ] (cw : Char → Nat) (hsp : cw ' ' = 1)
     refine ⟨lines, by rw [hview, pieces_flatten _ _ hasc], ?_, f2⟩
     unfold wrapLine
     simp only [Bool.false_eq_true, if_false]
-    rw [show WVariant.repaired.text = Variant.repaired from rfl, hdiv]
+    rw [show (WVariant.fixed chars).text = Variant.repaired from rfl, hdiv]
     simp only [bind, Except.bind] at f1 ⊢
     exact f1
 
@@ -325,7 +326,7 @@ theorem old_justify_negative_pad :
       = .ok [[('a', [0, 1]), ('b', [0, 1]), ('c', [0])]] := by rfl
 
 example :
-    (wrap WVariant.repaired (fun _ => 1) (⟨0, List.sum, (· == ·)⟩ : StyleAlg Nat)
+    (wrap (WVariant.fixed chars) (fun _ => 1) (⟨0, List.sum, (· == ·)⟩ : StyleAlg Nat)
         (Text.new Variant.repaired ['a', 'b', 'c'] 0 [⟨1, 3, 1⟩]) 2 (some .right) (some .ignore)).map (fun ls => ls.map Text.view)
       = .ok [[('a', [0]), ('b', [0, 1]), ('c', [0, 1])]] := by rfl
 
@@ -355,12 +356,12 @@ example : exCw ' ' = 1 ∧ (∀ c, exCw c ≤ 2) ∧ exCw '…' = 1 :=
 example : divideLine exCw exText.plain 2 true = [1, 2, 5, 7, 9] := by decide
 
 example :
-    (wrap WVariant.repaired exCw (⟨0, List.sum, (· == ·)⟩ : StyleAlg Nat) exText 2).map (fun ls => ls.map (·.plain))
+    (wrap (WVariant.fixed chars) exCw (⟨0, List.sum, (· == ·)⟩ : StyleAlg Nat) exText 2).map (fun ls => ls.map (·.plain))
       = .ok [['a'], ['あ'], [' ', 'b', '̀'], ['c', 'd'], [' ', ' '], ['e']] := by rfl
 
 /-- centred: the styles stay on their characters, the padding carries the bare base style -/
 example :
-    (wrap WVariant.repaired exCw (⟨0, List.sum, (· == ·)⟩ : StyleAlg Nat) exText 2 (some .center)).map
+    (wrap (WVariant.fixed chars) exCw (⟨0, List.sum, (· == ·)⟩ : StyleAlg Nat) exText 2 (some .center)).map
         (fun ls => ls.map Text.view)
       = .ok [[('a', [0, 1]), (' ', [0])], [('あ', [0, 1, 1])],
           [(' ', [0, 1, 1]), ('b', [0, 1, 2, 2, 1]), ('̀', [0, 1, 2, 2, 1])],
